@@ -85,7 +85,9 @@ func (a *Accounting) Reserve(peer boson.Address, traffic uint64) (err error) {
 	if err != nil {
 		return err
 	}
+	accountingPeer.lock.Lock()
 	retrieve := accountingPeer.unPaidTraffic
+	accountingPeer.lock.Unlock()
 	ret := big.NewInt(0).Add(retrieve, new(big.Int).SetUint64(traffic))
 	available, err := a.settlement.AvailableBalance()
 	if err != nil {
